@@ -48,6 +48,81 @@ def probe(prop):
     return rows, problems
 
 
+KILL_VALS = ("absent", "yes", "no", "raise")
+
+
+def kill_domain():
+    """(position, how, work returns?, validate): position 0..3 = the i-th checkpoint condition, 4 = work_fn, 5 = validate_fn;
+    how 0 = kill_operation(own id), 1 = shutdown()"""
+    return [(pos, how, w, v) for pos in range(6) for how in (0, 1) for w in (True, False) for v in KILL_VALS
+            if not (pos == 5 and v == "absent")]
+
+
+def probe_kills(prop):
+    """the real execute_operation with the operation ENDED from inside each of its six callbacks (all checkpoint
+    conditions otherwise default): does the work function still run, holding what, what is reported, is anything left"""
+    from ..props._coord import Impl
+    rows, problems = [], []
+    for pos, how, wok, val in kill_domain():
+        act = "k1" if how == 0 else "s"
+        work = "ok" if wok else "raise"
+        if pos < 4:
+            line = f"exec 1 3 1 bbbb@{pos}{act} n:{work} {val}"
+        elif pos == 4:
+            line = f"exec 1 3 1 bbbb {act}:{work} {val}"
+        else:
+            line = f"exec 1 3 1 bbbb n:{work} {val}@{act}"
+        try:
+            impl = Impl(prop)
+            impl.step("cfg none none none priority")
+            impl.step("res 1 0")
+            res, info = impl.step(line)
+            if res is None or "raised" in info or "success" not in info:
+                problems.append(f"{line}: {res!r}")
+                continue
+            phase = res.split()[1]
+            st = impl.snapshot()
+            clean = not st["active"] and all(l["owner"] == "-" for l in st["locks"].values())
+            own = info.get("own", [])
+            if phase not in PHASE_LEAN or len(own) > 1 or any(o not in ("0", "1") for o in own):
+                problems.append(f"{line}: phase {phase} own {own}")
+                continue
+            rows.append((pos, how, wok, val, bool(info["success"]), phase, list(info["log"]),
+                         (own[0] == "1") if own else None, clean))
+        except Exception as e:  # noqa
+            problems.append(f"{line}: {type(e).__name__}: {e}")
+    return rows, problems
+
+
+def render_kills(rows, problems):
+    def b(x):
+        return "true" if x else "false"
+    ok = not problems and len(rows) == len(kill_domain())
+    try:
+        for r in rows:
+            for e in r[6]:
+                ev(e)
+    except Exception as e:  # noqa
+        problems = list(problems) + [f"event {e!r}"]
+        rows, ok = [], False
+    out = ("\n/- the real execute_operation EVALUATED with the operation ended - kill_operation(own id) / shutdown() - from inside\n"
+           "   each of its six callbacks (checkpoint conditions 0..3, work_fn = 4, validate_fn = 5), work returning / raising,\n"
+           "   validate absent / True / False / raising.  Row = (position, how, work returns?, validate, success, phase\n"
+           "   reported, callback events in order, the resource owned inside work_fn (none = work_fn did not run), nothing\n"
+           "   active / owned afterwards). -/\n"
+           f"def execKillProbeOk : Bool := {b(ok)}\n\n")
+    for p in problems[:10]:
+        out += "-- problem: " + p.replace("\n", " ")[:200] + "\n"
+    out += "def execKillProbe : List (Nat × Nat × Bool × ValOut × Bool × Phase × List Ev × Option Bool × Bool) := [\n"
+    lines = []
+    for pos, how, wok, val, succ, phase, log, own, clean in rows:
+        lg = "[" + ", ".join(ev(e) for e in log) + "]"
+        o = "none" if own is None else f"some {b(own)}"
+        lines.append(f"  ({pos}, {how}, {b(wok)}, {VAL_LEAN[val]}, {b(succ)}, {PHASE_LEAN[phase]}, {lg}, {o}, {b(clean)})")
+    out += ",\n".join(lines) + "]\n"
+    return out, ok
+
+
 def ev(e):
     """'cp2:1' / 'work:0' / 'val:1' -> a term of Operon.Coord.Ev"""
     k, _, v = e.partition(":")
@@ -83,12 +158,15 @@ def render(rows, problems):
     for cps, wok, val, succ, phase, log, clean in rows:
         lg = "[" + ", ".join(ev(e) for e in log) + "]"
         lines.append(f"  ([{', '.join(CP_LEAN[c] for c in cps)}], {b(wok)}, {VAL_LEAN[val]}, {b(succ)}, {PHASE_LEAN[phase]}, {lg}, {b(clean)})")
-    out += ",\n".join(lines) + "]\n\nend Operon.Coord.Gen\n"
+    out += ",\n".join(lines) + "]\n"
     return out, ok
 
 
 def run(prop, lean_dir: Path, write_if_changed) -> list[dict]:
     rows, problems = probe(prop)
     text, ok = render(rows, problems)
-    changed = write_if_changed(Path(lean_dir) / "Operon/Gen/CoordExecProbe.lean", text)
-    return [{"id": "exec-probe", "facts_changed": bool(changed), "rows": len(rows), "ok": ok, "problems": problems[:5]}]
+    krows, kproblems = probe_kills(prop)
+    ktext, kok = render_kills(krows, kproblems)
+    changed = write_if_changed(Path(lean_dir) / "Operon/Gen/CoordExecProbe.lean", text + ktext + "\nend Operon.Coord.Gen\n")
+    return [{"id": "exec-probe", "facts_changed": bool(changed), "rows": len(rows) + len(krows), "ok": ok and kok,
+             "problems": (problems + kproblems)[:5]}]
